@@ -8,15 +8,16 @@ from emmet.config import Config
 
 PROP_ID = 'C14'
 RULE = ("(a) exhaustive: every name declared by the raw html, xsl and pug snippet tables (each `|`-separated name of each key), alone (expand(key) == expand(definition), format on and off, "
-        "reverseAttributes on/off) and — for single-element definitions — with every subset of decorations {.x, #i, [t=1 u], two class mentions, {txt}, *2, /, >p+q} "
+        "reverseAttributes on/off, with and without a caller's variables table) and — for single-element definitions — with every subset of decorations {.x, #i, [t=1 u], two class mentions, {txt}, *2, /, >p+q} "
         "compared with the textual splice (definition attributes, then alias attributes; alias text/repeat// win; under reverseAttributes alias attributes first); "
-        "for multi-element definitions: alias classes land once on every top-level element and nowhere else, children land inside the deepest last element. "
+        "for multi-element definitions: alias classes land once on every top-level element and nowhere else, alias text lands once inside every top-level element "
+        "(also one that has a text of its own; built-in text snippets c, cc:ie, !!! … included), children land inside the deepest last element. "
         "(b) Hypothesis: user tables of 1–6 keys s1…s6 whose definitions are G1 scripts over those keys (self reference, mutual recursion, repeaters, groups, "
         "several top-level elements): acyclic tables ⇒ expand(key) == expand(definition) and decorated aliases as above; every table ⇒ terminates (CPU watchdog, "
         "no RecursionError) with the maximum simultaneous depth of snippet resolution (counted with sys.setprofile) ≤ number of distinct definitions + 1 (the frame that detects the repetition). "
         "Non-trivial: the definition differs from the key's own name, or the table has a cycle; distinct by (syntax, key, decoration, options) / table.")
 ASSUME = ["alias == definition equality is asserted only for acyclic tables (with cycles the guard cuts at different points for different entry points)",
-          "children of self-closed deepest elements and decorations on definitions that already carry text/repeat are not generated"]
+          "children of self-closed deepest elements are not generated; on definitions that already carry text/repeat only the alias text is checked (applied once per top-level element), not the full splice"]
 
 
 def top_level_ops(s):
@@ -133,6 +134,8 @@ def cfg_of(case, fmt):
     c = {'syntax': case['syntax'], 'options': {'output.format': fmt, 'output.reverseAttributes': bool(case.get('reverse'))}}
     if case.get('user'):
         c['snippets'] = dict(case['user'])
+    if case.get('variables'):
+        c['variables'] = dict(case['variables'])
     return c
 
 
@@ -222,6 +225,7 @@ def check_multi(case, rec):
             plain = expand(defn, dict(cfg))
             deco = expand(key + '.zz8.zz9', dict(cfg))
             kids = expand(key + '>zp+zq', dict(cfg))
+            txt = expand(key + '{zztxt}', dict(cfg))
     except Exception as e:
         rec.fail(core.exc_bucket(e), 'key %r: %s: %s' % (key, type(e).__name__, core.short(str(e), 150)))
         return
@@ -272,6 +276,25 @@ def check_multi(case, rec):
             d -= 1
     if undeco != plain or n != top or bad_place:
         rec.fail('alias-attributes-misplaced', 'key %r (= %r): %d top-level elements\n plain     %r\n decorated %r' % (key, defn, top, plain, deco))
+    # text written on the alias is applied to every top-level element of the definition (also to one that has a text of its own): it occurs
+    # once inside each of them and nowhere else
+    ttags = parse_tags(txt)
+    spans = []
+    d = 0
+    for kind, name, attrs, a, b in ttags:
+        if kind == 'open':
+            if d == 0:
+                spans.append([a, None])
+            d += 1
+        elif kind == 'close':
+            d -= 1
+            if d == 0 and spans:
+                spans[-1][1] = b
+        elif d == 0:
+            spans.append([a, b])
+    per = [txt[a:b].count('zztxt') if b is not None else -1 for a, b in spans]
+    if txt.count('zztxt') != top or len(per) != top or any(c != 1 for c in per):
+        rec.fail('alias-text-misplaced', 'key %r (= %r): %d top-level elements\n plain     %r\n with {zztxt} on the alias %r' % (key, defn, top, plain, txt))
     # children: inside the deepest last element — unless that one is self-closed
     if tags and tags[-1][0] == 'close':
         # trailing run of close tags
@@ -366,7 +389,22 @@ def check_table(case, rec):
             check_multi({'syntax': 'html', 'key': key, 'user': user}, rec)
 
 
-CHECKS = {'alias': check_alias, 'multi': check_multi, 'table': check_table}
+def check_text_over_text(case, rec):
+    "single-element definition that carries a text of its own (`c`, `cc:ie`, `!!!` …): a text written on the alias is still applied, once"
+    key = case['key']
+    rec.nontrivial(distinct=True)
+    rec.evals()
+    try:
+        with guard():
+            out = expand(key + '{zztxt}', {'syntax': case['syntax'], 'options': {'output.format': False}})
+    except Exception as e:
+        rec.fail(core.exc_bucket(e), 'key %r: %s: %s' % (key, type(e).__name__, core.short(str(e), 150)))
+        return
+    if out.count('zztxt') != 1:
+        rec.fail('alias-text-misplaced', 'syntax %s key %r (= %r): %r shows the alias text %d times' % (case['syntax'], key, declared_table(case['syntax'])[key], out, out.count('zztxt')))
+
+
+CHECKS = {'alias': check_alias, 'multi': check_multi, 'table': check_table, 'text-over-text': check_text_over_text}
 
 
 def declared_table(syntax):
@@ -396,11 +434,17 @@ def builtin_cases():
             defn = table[key]
             for rev in (False, True):
                 yield 'alias', {'syntax': syntax, 'key': key, 'deco': [], 'reverse': rev}
+            # with a caller's variables table (one that overrides a default variable, one that only adds a new one): definitions that use
+            # ${lang}/${charset}/… must see the same merged variables whether reached through the alias or written in place
+            for vs in ({'lang': 'de'}, {'zzvar': 'q'}):
+                yield 'alias', {'syntax': syntax, 'key': key, 'deco': [], 'reverse': False, 'variables': vs}
             if syntax == 'pug' and key != '!!!':
                 continue
             if top_level_ops(defn):
                 yield 'multi', {'syntax': syntax, 'key': key}
                 continue
+            if has_top_text(defn) and '*' not in defn.split('[')[0]:
+                yield 'text-over-text', {'syntax': syntax, 'key': key}
             if has_top_text(defn) or '*' in defn.split('[')[0]:
                 continue
             sc = defn.endswith('/')
